@@ -9,4 +9,5 @@
 
 pub mod collections;
 pub mod vec;
+pub mod cvec;
 pub use collections::CAP;
